@@ -69,7 +69,9 @@ impl BerHeader {
                 // > 30
                 let mut n = 0 as Tag;
                 loop {
-                    // @todo: check size
+                    if current >= i.len() {
+                        return Err(Err::Incomplete(Needed::new(1)));
+                    }
                     let t = i[current];
                     current += 1;
                     n = (n << 7) | ((t & 0x7f) as Tag);
@@ -84,6 +86,9 @@ impl BerHeader {
         // Parse length offset
         // X.690 8.3.1.4-8.3.1.5
         // @todo: Indefinite length
+        if current >= i.len() {
+            return Err(Err::Incomplete(Needed::new(1)));
+        }
         let n = i[current];
         current += 1;
         let length = if n & 0x80 == 0 {
@@ -93,6 +98,9 @@ impl BerHeader {
             // Long form, X.690 pp 8.1.3.5
             let mut ln = 0;
             for _ in 0..n & 0x7f {
+                if current >= i.len() {
+                    return Err(Err::Incomplete(Needed::new(1)));
+                }
                 ln = (ln << 8) + (i[current] as usize);
                 current += 1;
             }
